@@ -1157,4 +1157,16 @@ class Interp:
             self.fresh(it, fn, e, 'erase')
             del obj.items[it.idx]           # erase moves the tail down in place: storage stays, pointers keep their meaning as positions
             return It(obj, it.idx)
+        if short == 'resize' and len(a) in (1, 2):
+            n_ = a[0]
+            if not isinstance(n_, int) or n_ < 0:
+                self.broken(fn, e, 'resize to a non-constant size')
+            if n_ < len(obj.items):
+                del obj.items[n_:]
+            else:
+                v_ = a[1] if len(a) == 2 else 0
+                while len(obj.items) < n_:                 # only the elements that are ADDED take the value: the old ones stay as they are
+                    obj.items.append(copy_rec(v_) if isinstance(v_, Rec) else v_)
+            obj.gen += 1
+            return None
         self.broken(fn, e, 'Vector::%s/%d is not modelled' % (short, len(a)))
